@@ -65,13 +65,18 @@ Theorem C06_bank_windows : forall banks, check_bank_overlap banks = Ok tt ->
     windows_disjoint b1 b2.
 Proof. exact bank_windows. Qed.
 
+(* the window check and the output-position computation never panic (F48, F61 fixed) *)
+Theorem C06_bank_overlap_never_panics : forall banks, check_bank_overlap banks <> Panic.
+Proof. exact check_bank_overlap_never_panics. Qed.
+Theorem C06_output_position_never_panics : forall b pos, get_output_position b pos <> Panic.
+Proof. exact get_output_position_never_panics. Qed.
+
 Theorem C06_bank_windows_checker : forall banks, check_bank_overlap banks = Ok tt -> windows_ok banks = true.
 Proof. exact bank_windows_b. Qed.
 
-(* overlapping windows of two user banks are rejected (Err when no window end exceeds usize;
-   otherwise `outp + size` overflows: a debug panic of the implementation, reported to the lead) *)
+(* overlapping windows of two user banks are rejected, unconditionally (since /repo abbd199, F48 fixed: a window whose
+   end is not representable ends after everything; the comparison can no longer overflow) *)
 Theorem C06_rejects_overlapping_windows : forall banks i j b1 b2 k,
-  Forall window_fits banks ->
   (1 <= i)%nat -> (i < j)%nat -> nth_error banks i = Some b1 -> nth_error banks j = Some b2 ->
   in_window b1 k -> in_window b2 k -> check_bank_overlap banks = Err.
 Proof. exact bank_windows_rejected. Qed.
@@ -115,7 +120,6 @@ Proof. exact pairwise_disjointb_spec. Qed.
 (* ---------------------------------------------------------------- rejections *)
 (* writing past the bank's size, into a bank without outp, or in the default bank after #bankdef *)
 Theorem C06_rejects_write : forall mb banks c b pos enc es out spans,
-  pos + N.of_nat (length enc) <= usize_max ->
   (c_bank c = 0%nat /\ length banks <> 1%nat) \/
   (exists sz, bk_size b = Some sz /\ sz < pos + N.of_nat (length enc)) \/
   bk_outp b = None ->
@@ -123,13 +127,11 @@ Theorem C06_rejects_write : forall mb banks c b pos enc es out spans,
 Proof. exact emit_rejected. Qed.
 
 Theorem C06_rejects_reservation : forall mb banks c b pos k es out spans,
-  pos + k <= usize_max ->
   (c_bank c = 0%nat /\ length banks <> 1%nat) \/ (exists sz, bk_size b = Some sz /\ sz < pos + k) ->
   emit_node mb banks c b pos (NRes k) es out spans = Err.
 Proof. exact res_rejected. Qed.
 
 Theorem C06_rejects_label : forall mb banks c b pos d0 v es out spans,
-  pos <= usize_max ->
   (c_bank c = 0%nat /\ length banks <> 1%nat) \/ (exists sz, bk_size b = Some sz /\ sz < pos) ->
   emit_node mb banks c b pos (NSymbol true d0 v) es out spans = Err.
 Proof. exact label_rejected. Qed.
